@@ -59,6 +59,8 @@ def child_env(scratch):
                            "malloc_context_size=12")
     env["UBSAN_OPTIONS"] = "print_stacktrace=1:halt_on_error=1:exitcode=96"
     env["LSAN_OPTIONS"] = "exitcode=0:print_suppressions=0"
+    env["MALLOC_TOP_PAD_"] = "67108864"
+    env["MALLOC_TRIM_THRESHOLD_"] = "536870912"
     env.pop("RC_PARAMS", None)
     return env
 
